@@ -329,8 +329,8 @@ def oracle(c, case, ans):
     # (4) re-submitting the replacement finds the existing result
     for ix, (j, o, r) in enumerate(zip(case["jobs"], case["old"], ans["resubmit"])):
         mk = f"{case['name']}:job{ix}"
-        if not any_fix or ix in moved or not o["done"] or r.get("mark") != mk:
-            continue
+        if not any_fix or ix in moved or not o["done"] or r.get("mark") != mk or exp.get(mk) is None:
+            continue     # (a directory whose params.json is missing or unreadable is never examined by the repair)
         renamed = o["name"] != ans["new"][ix]["name"]
         key = "C20:resubmit-misses-result:" + ("task-renamed" if renamed else "same-name")
         if not r["done_visible"]:
@@ -366,8 +366,6 @@ def g_case(item):
     exp, _ = expected_recomp(case, ans)
 
     def g_init(e):
-        if "link" in e:
-            return f"({gk(tkey(e['link']))}, Link {gk(tkey(e['link']))})"
         n = exp.get(e["mark"])
         rc = "None" if (n is None or not e["params"]) else f"(Some {gk(n)})"
         return f"Dir (mkdata {marks(e['mark'])} {gbool(e['params'])} {rc} {glist(str(names(x)) for x in e['done'])})"
